@@ -349,6 +349,16 @@ let judge_case (u : uni) (case : sx) (obs : sx list) : verdict =
             check_decode u v sid md dobs "corr-";
             (* property: the result is the model's round trip of the value *)
             let mr = decode_object u.env [] nsid mb (fresh u.env nsid) in
+            (* model-side test of the C01 statement: under its hypotheses the round trip is norm_top v *)
+            let t0 = TStruct nsid in
+            if holders_empty mv && enums32 u.env t0 mv && req_complete u.env t0 mv then begin
+              match mr with
+              | DOk ((rv, rn), _) ->
+                  if not (val_eqb rv (norm_top u.env nsid mv)) then
+                    fail v "model-rt-ne-norm" (Printf.sprintf "decode(encode v) %s, norm v %s" (str_of_val rv) (str_of_val (norm_top u.env nsid mv)));
+                  if int_of_n rn <> List.length mb then fail v "model-rt-n" "model round trip does not consume the message"
+              | _ -> fail v "model-rt-fail" "model round trip fails although the value meets the hypotheses of C01"
+            end;
             (match mr, dobs with
              | DOk ((rv, _), _), L [A "ok"; A gn; gv] ->
                  if int_of_string gn <> List.length gb then fail v "prop-rt-n" "decode did not consume the encoded length";
